@@ -913,6 +913,11 @@ def replay_c11(d, case):
         return True, 'output is not a well-formed plotfile: %s' % e
     F = case['fields']
     keptn = [k for k in (kept.split() if kept else []) if k in F]
+    if len(set(keptn)) < len(keptn):
+        # a field named more than once in the kept list: written once or once per mention, the output decides (see harness/c11.expected)
+        got = list(P['fields'][:len(P['fields']) - len(case['newnames'])])
+        if got and set(got) == set(keptn) and list(P['fields'][len(got):]) == list(case['newnames']):
+            keptn = got
     want_fields = keptn + case['newnames']
     if P['fields'] != want_fields:
         return True, 'fields %s, expected %s' % (P['fields'], want_fields)
